@@ -30,6 +30,7 @@ func genAll() {
 	genAccess()
 	genResolveSrc()
 	genResolverSrc()
+	genStripVendorSrc()
 	genDecisionSrc()
 	genPuritySrc()
 	genFrag()
